@@ -246,6 +246,18 @@ func c12GenBounds(t *rapid.T) []int64 {
 	}
 	b := make([]int64, 0, n)
 	var cur int64
+	if rapid.IntRange(0, 19).Draw(t, "wide") == 0 {
+		// bounds from one end of the duration range to the other: neighbouring bounds may be more than the largest
+		// duration apart
+		lo := -rapid.Int64Range(1<<62, math.MaxInt64).Draw(t, "widelo")
+		hi := rapid.Int64Range(1<<62, math.MaxInt64).Draw(t, "widehi")
+		b = append(b, lo)
+		if rapid.Bool().Draw(t, "widemid") {
+			b = append(b, lo+rapid.Int64Range(1, 1e12).Draw(t, "wideoff"))
+		}
+		b = append(b, hi)
+		return b
+	}
 	switch rapid.IntRange(0, 3).Draw(t, "first") {
 	case 3: // bounds may lie below zero (nothing in the statement, the parser or Add forbids it)
 		cur = -rapid.OneOf(rapid.SampledFrom([]int64{1, 1000, 5e6, 10e6, 1e9}), rapid.Int64Range(1, 1e10)).Draw(t, "firstneg")
@@ -301,7 +313,11 @@ func TestC12Histogram(t *testing.T) {
 				if rapid.IntRange(0, 5).Draw(t, fmt.Sprintf("xk%d", i)) == 0 {
 					c.Lat = append(c.Lat, math.MaxInt64)
 				} else {
-					c.Lat = append(c.Lat, rapid.Int64Range(c.Bounds[0], c.Bounds[len(c.Bounds)-1]+1e9).Draw(t, fmt.Sprintf("x%d", i)))
+					top := c.Bounds[len(c.Bounds)-1]
+					if top < math.MaxInt64-1e9 {
+						top += 1e9
+					}
+					c.Lat = append(c.Lat, rapid.Int64Range(c.Bounds[0], top).Draw(t, fmt.Sprintf("x%d", i)))
 				}
 			}
 		}
